@@ -41,6 +41,8 @@ struct Scripts {
     bufs: Vec<usize>,
     src: Vec<Step>,
     last_chunk: usize,
+    /// octets taken from the payload object through the OTHER interface before the message is read as a stream
+    pre: usize,
 }
 
 fn scripts_of(hist: &J, scale: usize) -> Scripts {
@@ -62,11 +64,11 @@ fn scripts_of(hist: &J, scale: usize) -> Scripts {
             x => panic!("harness: payload hist {x}"),
         }
     }
-    Scripts { bufs, src, last_chunk }
+    Scripts { bufs, src, last_chunk, pre: 0 }
 }
 
 /// one replay; returns the events
-fn replay(kind: &str, iface: &str, msg_i: usize, plen: usize, sc: Scripts, max_reads: usize) -> (Vec<J>, usize, usize) {
+fn replay(kind: &str, iface: &str, msg_i: usize, plen: usize, sc: Scripts, max_reads: usize) -> (Vec<J>, usize, usize, usize) {
     let mut req = sample_message(msg_i);
     let h = req.to_bytes().to_vec();
     let p = pattern(plen, msg_i as u32);
@@ -80,10 +82,53 @@ fn replay(kind: &str, iface: &str, msg_i: usize, plen: usize, sc: Scripts, max_r
         "async" => *req.payload_mut() = IppPayload::new_async(if iface == "sync" { src.threaded() } else { src }),
         _ => panic!("harness: kind"),
     }
-    let total = if kind == "empty" { hlen } else { hlen + plen };
-    let expect = expect[..total].to_vec();
     let log = sh.log.clone();
     let push = move |j: J| log.lock().unwrap().push(j);
+    // second-order use: some octets of the payload are first taken from the payload object itself through the
+    // interface that will NOT be used for the stream (blocking before async consumption and vice versa)
+    let mut pre_n = 0usize;
+    if sc.pre > 0 && kind != "empty" && plen > 0 {
+        let k = sc.pre.min(plen);
+        let mut pb = vec![0u8; k];
+        push(json!({"ev": "cprebegin", "want": k}));
+        let got = if iface == "async" {
+            let mut g = 0usize;
+            while g < k {
+                match req.payload_mut().read(&mut pb[g..]) {
+                    Ok(0) => break,
+                    Ok(n) => g += n,
+                    Err(e) if e.kind() == std::io::ErrorKind::Interrupted => continue,
+                    Err(_) => break,
+                }
+            }
+            g
+        } else {
+            let sh3 = sh.dup();
+            let pm = req.payload_mut();
+            let fut = async {
+                let mut g = 0usize;
+                while g < k {
+                    match futures_util::io::AsyncReadExt::read(pm, &mut pb[g..]).await {
+                        Ok(0) => break,
+                        Ok(n) => g += n,
+                        Err(_) => break,
+                    }
+                }
+                g
+            };
+            match run_scripted(fut, &sh3, 50_000_000) {
+                ExecOut::Done(g) => g,
+                _ => 0,
+            }
+        };
+        let ok = got == k && pb[..] == p[..k];
+        push(json!({"ev": "cpre", "n": got, "ok": ok, "via": if iface == "async" { "sync" } else { "async" }}));
+        pre_n = got;
+        expect = h.clone();
+        expect.extend_from_slice(&p[pre_n.min(p.len())..]);
+    }
+    let total = if kind == "empty" { hlen } else { hlen + plen - pre_n };
+    let expect = expect[..total].to_vec();
     let bufs = sc.bufs.clone();
     let maxb = bufs.iter().cloned().max().unwrap_or(1).max(1);
     let mut d = 0usize;
@@ -189,7 +234,7 @@ fn replay(kind: &str, iface: &str, msg_i: usize, plen: usize, sc: Scripts, max_r
         }
     }
     push(json!({"ev": "cend", "total": d, "reads": reads}));
-    (sh.take_log(), hlen, total - hlen)
+    (sh.take_log(), hlen, if kind == "empty" { 0 } else { plen }, pre_n)
 }
 
 pub fn run(a: &Args) {
@@ -229,15 +274,15 @@ pub fn run(a: &Args) {
         let side = json!({"case": cid, "kind": kind, "iface": iface, "message": msg_i, "plen": plen, "scale": scale,
             "consumer_buffers": bufs_desc, "source_script": src_desc, "what": what, "bytes": "see harness payload.rs sample_message/pattern"});
         match r {
-            Ok((log, hlen, pl)) => {
-                sink.emit(&json!({"ev": "pmsg", "case": cid, "kind": kind, "iface": iface, "hlen": hlen, "plen": pl, "scale": scale}), &side);
+            Ok((log, hlen, pl, pre)) => {
+                sink.emit(&json!({"ev": "pmsg", "case": cid, "kind": kind, "iface": iface, "hlen": hlen, "plen": pl, "pre": pre, "scale": scale}), &side);
                 let small = json!({"case": cid});
                 for e in &log {
                     sink.emit(e, &small);
                 }
             }
             Err(p) => {
-                sink.emit(&json!({"ev": "pmsg", "case": cid, "kind": kind, "iface": iface, "hlen": 0, "plen": 0, "scale": scale}), &side);
+                sink.emit(&json!({"ev": "pmsg", "case": cid, "kind": kind, "iface": iface, "hlen": 0, "plen": 0, "pre": 0, "scale": scale}), &side);
                 sink.emit(&json!({"ev": "cpanic", "what": panic_text(p)}), &side);
             }
         }
@@ -300,7 +345,11 @@ pub fn run(a: &Args) {
                 _ => src.push(Step::Deliver(1 + rng.below(70000))),
             }
         }
-        let sc = Scripts { bufs, src, last_chunk: 1 + rng.below(70000) };
+        // every fifth run with a payload first takes some octets from the payload object through the other interface
+        // (plain sources there: the bridging of not-ready / interrupted results is exercised by the other runs)
+        let pre = if k % 5 == 4 && kind != "empty" && plen > 0 { 1 + rng.below(20000) } else { 0 };
+        let src = if pre > 0 { src.into_iter().filter(|s| matches!(s, Step::Deliver(_))).collect() } else { src };
+        let sc = Scripts { bufs, src, last_chunk: 1 + rng.below(70000), pre };
         let cid = format!("prand-{}", k);
         emit_run(&mut sink, cid, kind, iface, k, plen, sc, 1, "random buffers and schedule");
         runs += 1;
@@ -324,7 +373,7 @@ pub fn run(a: &Args) {
                             (3, _) => vec![Step::Deliver(1), Step::Deliver(5000)],
                             _ => continue,
                         };
-                        let sc = Scripts { bufs, src, last_chunk: 700 };
+                        let sc = Scripts { bufs, src, last_chunk: 700, pre: 0 };
                         emit_run(&mut sink, format!("phdr-{}-{}-{}-{}-{}", k, kind, iface, bi, srcv), kind, iface, k, [0usize, 1, 10, 5000][(k + bi) % 4], sc, 1, "buffers around the header length");
                         runs += 1;
                     }
